@@ -129,7 +129,15 @@ fn handshake(u: &mut Unstructured) -> Result<Handshake> {
     }
     Ok(match u.int_in_range(0..=7)? {
         0 => Handshake::Reject(u.int_in_range(0x80..=0xA2)?),
-        1 => Handshake::Garbage({ let mut b = take_bytes(u, 7)?; b.push(0x20); b }),
+        1 => Handshake::Garbage({
+            let mut b = take_bytes(u, 7)?;
+            b.push(0x20);
+            // never a CONNACK the client might accept (the broker model would not know that session)
+            if b[0] == 0x20 {
+                b[0] = 0x21;
+            }
+            b
+        }),
         2 => Handshake::ServerDisconnect(0x89),
         3 => Handshake::EofAfter(u.int_in_range(0..=5)?),
         4 => Handshake::StallAfter(u.int_in_range(0..=5)?),
